@@ -1,5 +1,6 @@
 import S2T.Lemmas.Units
 import S2T.Gen.Units
+import S2T.Props.C03_Bound
 /-!
 # C03 — Units mirror pages / slides / sheets / chapters / messages
 
